@@ -10,6 +10,7 @@ package main
 // empty between sequential calls, Stat counters are write-only), so equal keys have equal futures.
 
 import (
+	"context"
 	"database/sql"
 	"errors"
 	"fmt"
@@ -23,11 +24,12 @@ import (
 	"github.com/zeromicro/go-zero/core/stores/sqlx"
 	"github.com/zeromicro/go-zero/core/syncx"
 	"github.com/zeromicro/go-zero/verifshim/vlib"
+	"github.com/zeromicro/go-zero/verifshim/vsched"
 )
 
 // Op is one step of a history.
 type Op struct {
-	K   string `json:"k"`             // take | qrow | qidx | get | write | del | set | setx | adv | faildb | out+ | out- | jit
+	K   string `json:"k"`             // take | qrow | qidx | get | write | del | writec | delc | set | setx | adv | tick | faildb | out+ | out- | jit
 	Key string `json:"key,omitempty"` // k1 | k2 (row 1 / row 2); qidx always reads the index key of row 1
 	V   string `json:"v,omitempty"`   // write: v1 | v2
 	D   int    `json:"d,omitempty"`   // adv: seconds
@@ -36,10 +38,10 @@ type Op struct {
 
 func (o Op) String() string {
 	switch o.K {
-	case "take", "qrow", "get", "del", "set", "setx":
+	case "take", "qrow", "get", "del", "delc", "set", "setx":
 		return o.K + "(" + o.Key + ")"
-	case "write":
-		return "write(" + o.Key + "," + o.V + ")"
+	case "write", "writec":
+		return o.K + "(" + o.Key + "," + o.V + ")"
 	case "adv":
 		return fmt.Sprintf("adv(%ds)", o.D)
 	case "jit":
@@ -74,6 +76,10 @@ type refT struct {
 	outage   bool
 	outOps   int // cache operations attempted during outages
 	jit      int
+	// kinds of the Execs whose invalidation failed while retry tasks are still pending
+	// ("b" = background context, "c" = request context cancelled after the call): part of the
+	// state, because what a pending retry does may depend on the context it was created under
+	execLog string
 }
 
 func newRef() *refT {
@@ -124,12 +130,24 @@ func (r *refT) String() string {
 		}
 		ks = append(ks, s)
 	}
-	return fmt.Sprintf("db{%s,%s} cache{%s} fail=%v out=%v/%d jit=%d", r.db["k1"], r.db["k2"], strings.Join(ks, ","), r.failNext, r.outage, r.outOps, r.jit)
+	return fmt.Sprintf("db{%s,%s} cache{%s} fail=%v out=%v/%d jit=%d ctx=%s", r.db["k1"], r.db["k2"], strings.Join(ks, ","), r.failNext, r.outage, r.outOps, r.jit, r.execLog)
 }
 
 // ---- system under test for one history ----
 
+type hTicker struct{ c chan time.Time }
+
+func (t *hTicker) Chan() <-chan time.Time { return t.c }
+func (t *hTicker) Stop()                  {}
+
+type attempt struct {
+	keys  []string
+	delay time.Duration
+}
+
 type sut struct {
+	tk       *hTicker  // the cleaner wheel's ticker: one send = one second of cleaner time
+	attempts []attempt // retries fired by the cleaner wheel since the last time op
 	be   *backend
 	db   *fakeDB
 	node cache.Cache     // cache.NewNode: Take with its own configured not-found error
@@ -305,25 +323,37 @@ func (s *sut) step(ref *refT, op Op, verbose bool) *failure {
 				writes = append(writes, written{keyIx, valLo, valHi}, written{keyP1, valLo, valHi + indexGapSlack})
 			}
 		}
-	case "write", "del":
+	case "write", "del", "writec", "delc":
 		id := rowIDOf(op.Key)
+		isWrite := op.K == "write" || op.K == "writec"
 		keys := keysOfRow(op.Key)
 		var realKeys []string
 		for _, k := range keys {
 			realKeys = append(realKeys, s.be.real(k))
 		}
 		var want int64 = 1
-		if op.K == "del" && ref.db[op.Key] == "" {
+		if !isWrite && ref.db[op.Key] == "" {
 			want = 0
 		}
-		res, err := s.cc.Exec(func(conn sqlx.SqlConn) (sql.Result, error) {
+		stmt := func(conn sqlx.SqlConn) (sql.Result, error) {
 			d := conn.(*fakeDB)
-			if op.K == "write" {
+			if isWrite {
 				return d.upsert(id, rowNameOf(op.Key), op.V), nil
 			}
 			return d.remove(id), nil
-		}, realKeys...)
-		if op.K == "write" {
+		}
+		var res sql.Result
+		var err error
+		if op.K == "writec" || op.K == "delc" {
+			// request-scoped context: cancelled as soon as the call has returned
+			reqCtx, endRequest := context.WithCancel(context.Background())
+			res, err = s.cc.ExecCtx(reqCtx, func(_ context.Context, conn sqlx.SqlConn) (sql.Result, error) { return stmt(conn) }, realKeys...)
+			endRequest()
+		} else {
+			res, err = s.cc.Exec(stmt, realKeys...)
+		}
+		vsched.Quiesce() // a failed invalidation hands its retry to the cleaner wheel
+		if isWrite {
 			ref.db[op.Key] = op.V
 		} else {
 			ref.db[op.Key] = ""
@@ -349,12 +379,19 @@ func (s *sut) step(ref *refT, op Op, verbose bool) *failure {
 				ref.taint[k] = true
 				*ref.ent[k] = entry{}
 			}
+			if op.K == "writec" || op.K == "delc" {
+				ref.execLog += "c"
+			} else {
+				ref.execLog += "b"
+			}
 		} else {
 			if err != nil {
 				return fail("exec-error-without-fault", "%v: Exec returned error %v although neither the database nor the cache failed", op, err)
 			}
+			// a successful invalidation: whatever was cached is gone, coherence is demanded (again)
 			for _, k := range keys {
 				*ref.ent[k] = entry{}
+				delete(ref.taint, k)
 			}
 		}
 		expectQ = 0
@@ -402,16 +439,42 @@ func (s *sut) step(ref *refT, op Op, verbose bool) *failure {
 			*ref.ent[ck] = entry{kind: eVal, val: ref.db[op.Key]}
 			writes = append(writes, written{ck, ceilSecs(950, requestedExpiry), ceilSecs(1050, requestedExpiry)})
 		}
-	case "adv":
-		s.be.fastForward(time.Duration(op.D) * time.Second)
+	case "adv", "tick":
+		d := op.D
+		if op.K == "tick" {
+			d = 1
+		}
+		// d seconds pass for the store (TTLs) and for the cleaner (d ticks of its wheel; after each
+		// tick the retries it fired run to completion)
+		s.be.fastForward(time.Duration(d) * time.Second)
 		for _, e := range ref.ent {
 			if e.kind != eNone {
-				e.ttl -= op.D
+				e.ttl -= d
 				if e.ttl <= 0 {
 					*e = entry{}
 				}
 			}
 		}
+		s.attempts = nil
+		for i := 0; i < d; i++ {
+			vsched.Send(s.tk.c, vsched.TimeNow())
+			vsched.Quiesce()
+		}
+		// A retry attempted while the store is healthy must have invalidated its keys: from here on
+		// coherent reads of them are demanded again. (A retry during an outage fails and is re-armed.)
+		if !ref.outage {
+			for _, a := range s.attempts {
+				for _, rk := range a.keys {
+					k := s.be.canonical(rk)
+					if ref.ent[k] == nil {
+						return fail("harness", "cleaner retried unknown key %s", rk)
+					}
+					*ref.ent[k] = entry{}
+					delete(ref.taint, k)
+				}
+			}
+		}
+		obs.outcome = fmt.Sprintf("retries:%d", len(s.attempts))
 	case "faildb":
 		s.db.failNext = true
 		ref.failNext = true
@@ -541,7 +604,7 @@ func (s *sut) step(ref *refT, op Op, verbose bool) *failure {
 		switch {
 		case e.kind == eNone && !present:
 		case e.kind == eNone && present:
-			if (op.K == "write" || op.K == "del") && ref.coherent(k, obsE) {
+			if (op.K == "write" || op.K == "del" || op.K == "writec" || op.K == "delc" || op.K == "adv" || op.K == "tick") && ref.coherent(k, obsE) {
 				*e = obsE
 				continue
 			}
@@ -642,7 +705,9 @@ func resultClass(op Op, expect, got string, ref *refT, during bool) string {
 
 func unexpectedEntryClass(op Op, x kv) string {
 	switch op.K {
-	case "write", "del":
+	case "adv", "tick":
+		return "stale-entry-survives-retry:" + entryTag(x)
+	case "write", "del", "writec", "delc":
 		return "stale-entry-survives-invalidation:" + entryTag(x)
 	case "take", "qrow", "qidx":
 		return "failed-read-cached:" + op.K + ":" + entryTag(x)
@@ -664,19 +729,51 @@ func runHistory(path []Op, verbose, cluster bool) histResult {
 	if cluster {
 		env.initCluster()
 	}
-	s := newSut(cluster)
-	ref := newRef()
-	for i, op := range path {
-		if f := s.step(ref, op, verbose); f != nil {
-			return histResult{fail: f, at: i}
+	var out histResult
+	// The whole history runs as the driver thread of one vsched execution in sequential-driver
+	// mode: the cleaner's timing wheel and task runner (rewritten core/collection, core/threading)
+	// are controlled threads, the harness owns the wheel's ticker, and Quiesce() after an operation
+	// lets every retry that was fired run to completion. No real time is involved.
+	e := vsched.RunSeq(func() {
+		vsched.DaemonChildren(true) // wheel loop and task goroutines never keep the execution alive
+		s := newSut(cluster)
+		s.tk = &hTicker{c: vsched.MakeChan[time.Time](1)}
+		if err := cache.VerifInstallCleaner(s.tk, func(keys []string, delay time.Duration) {
+			s.attempts = append(s.attempts, attempt{keys, delay})
+		}); err != nil {
+			out = histResult{fail: fail("harness", "install cleaner: %v", err)}
+			return
 		}
+		vsched.Quiesce()
+		ref := newRef()
+		for i, op := range path {
+			f := s.step(ref, op, verbose)
+			if f != nil {
+				out = histResult{fail: f, at: i}
+				return
+			}
+			pend := cache.VerifCleanerPending()
+			if len(pend) == 0 {
+				ref.execLog = ""
+			}
+			if verbose && len(pend) > 0 {
+				fmt.Printf("      cleaner: %s\n", strings.Join(pend, " "))
+			}
+		}
+		pend := s.be.canonicalAll(cache.VerifCleanerPending())
+		out = histResult{key: ref.String() + " || " + dumpString(s.be.contents()) + " || cleaner[" + strings.Join(pend, " ") + "]", info: ref.String()}
+	})
+	cache.VerifParkCleaner()
+	if e.Outcome != "ok" && out.fail == nil {
+		out = histResult{fail: fail("cleaner-"+e.Outcome, "execution ended with %s: blocked %v panics %v", e.Outcome, e.Blocked(), e.Panics()), at: len(path) - 1}
 	}
-	return histResult{key: ref.String() + " || " + dumpString(s.be.contents()), info: ref.String()}
+	return out
 }
 
 // ---- alphabet ----
 
 type abstractState struct {
+	failedInval bool // some Exec ran during an outage: a retry task exists or existed
 	db       map[string]string
 	failNext bool
 	outage   bool
@@ -689,9 +786,9 @@ func foldPath(path []Op) abstractState {
 	a := abstractState{db: map[string]string{}}
 	for _, o := range path {
 		switch o.K {
-		case "write":
+		case "write", "writec":
 			a.db[o.Key] = o.V
-		case "del":
+		case "del", "delc":
 			a.db[o.Key] = ""
 		case "faildb":
 			a.failNext = true // cleared only by a query; enabling it twice is filtered by the state key
@@ -704,8 +801,11 @@ func foldPath(path []Op) abstractState {
 		}
 		if a.outage {
 			switch o.K {
-			case "take", "qrow", "qidx", "get", "write", "del", "set", "setx":
+			case "take", "qrow", "qidx", "get", "write", "del", "writec", "delc", "set", "setx":
 				a.outOps++
+				if o.K == "write" || o.K == "del" || o.K == "writec" || o.K == "delc" {
+					a.failedInval = true
+				}
 			}
 		}
 	}
@@ -735,6 +835,18 @@ func alphabet(cluster bool) func(depth int, path []Op) []Op {
 				}
 				add(Op{K: "del", Key: k})
 			}
+			if a.outage {
+				// the same writes issued with a request-scoped context that is cancelled after the
+				// call: only under an outage can the context outlive the call (in the retry task)
+				for _, k := range []string{"k1", "k2"} {
+					for _, v := range []string{"v1", "v2"} {
+						if a.db[k] != v {
+							add(Op{K: "writec", Key: k, V: v})
+						}
+					}
+					add(Op{K: "delc", Key: k})
+				}
+			}
 			for _, k := range []string{"k1", "k2"} {
 				if a.db[k] != "" {
 					add(Op{K: "set", Key: k})
@@ -747,6 +859,11 @@ func alphabet(cluster bool) func(depth int, path []Op) []Op {
 		half := int(expiry / time.Second / 2)
 		full := int(expiry / time.Second)
 		nf := int(notFoundExpiry / time.Second)
+		if a.failedInval {
+			// one second = one tick of the cleaner wheel; offered once an invalidation has failed
+			// (before that it only multiplies TTL values: the other advances already cover expiry)
+			add(Op{K: "tick"})
+		}
 		for _, d := range []int{half, full, nf, full + 6} {
 			add(Op{K: "adv", D: d})
 		}
@@ -826,6 +943,9 @@ func searchHistories(cfg *vlib.Config, r *vlib.Report, name string, cluster bool
 			r.Violation(res.Class, res.Err, HistCase{Kind: "history", Cluster: cluster, Path: append([]Op(nil), path...)})
 		},
 		OnState: func(path []Op, res vlib.RunResult) {
+			if os.Getenv("C06_STATES") != "" { // debugging aid
+				fmt.Fprintf(os.Stderr, "STATE d=%d %s <= %s\n", len(path), res.Key, pathString(path))
+			}
 			// non-trivial: some cache entry, taint or armed fault is part of the state
 			if strings.Contains(res.Key, "@") || strings.Contains(res.Key, "?") || strings.Contains(res.Key, "fail=true") || strings.Contains(res.Key, "out=true") {
 				r.Nontrivial(name + "|" + res.Key)
